@@ -276,7 +276,9 @@ class Agent:
             r = len(cur)
             rows = []
             if r:
-                for _ in range(m):
+                # (a conformant agent may send fewer repetitions than asked for -- its message size is finite: this one never
+                # sends more than 300 rows, however large max-repetitions is)
+                for _ in range(min(m, 300)):
                     row = []
                     alleom = True
                     for i, o in enumerate(cur):
